@@ -74,6 +74,8 @@ package dns
 //@   ensures mono: ret1 == nil ==> off <= ret0
 //@   ensures rng: ret1 == nil && off <= len(msg) ==> ret0 <= len(msg)
 //@   loop 1 invariant old(off) <= off && (old(off) <= len(msg) ==> off <= len(msg))
+// RFC 6891 6.1.2: each option is OPTION-CODE (16 bits), OPTION-LENGTH (16 bits, the number of data octets), data
+//@   callsite "PutUint16" opthdr: ref(arg1) == ref(msg) && ((sliceoff(arg1) == sliceoff(msg) + off && arg2 == callres("Option")) || (sliceoff(arg1) == sliceoff(msg) + off + 2 && arg2 == len(b) % 65536)) [C01]
 //@   writes msg
 //@ func packDataSVCB [C01 C08 C16]
 //@   opt no-safety
